@@ -29,7 +29,7 @@ pub static DEF: PropDef = PropDef {
         "while some task is between take_hook and set_hook the process hook is std's default by construction: no sentinel / message-content expectation is attached to panics fired in that window",
         "PANIC_CATCHER_HOOK_SET is reset between runs through the guarded test-only hook",
     ],
-    required_probes: &["c19.panic_caught", "c19.panic_escaped", "c19.nested_noncatching_outer", "c19.install", "c19.query", "c19.epilogue", "c19.install_lock_contended", "c19.transparent"],
+    required_probes: &["c19.panic_caught", "c19.panic_escaped", "c19.nested_noncatching_outer", "c19.install", "c19.query", "c19.epilogue", "c19.install_lock_contended", "c19.transparent", "c19.static_payload"],
     extra: None,
 };
 
@@ -120,6 +120,8 @@ enum Op {
     QueryBacktrace,
     Catch(Vec<Op>),
     Panic,
+    /// panic with a `&'static str` payload (the hook reads `&str` and `String` payloads through different downcasts)
+    PanicStatic,
 }
 
 fn render(ops: &[Op]) -> String {
@@ -132,6 +134,7 @@ fn render(ops: &[Op]) -> String {
             Op::QueryBacktrace => "query".to_string(),
             Op::Catch(b) => format!("catch{{{}}}", render(b)),
             Op::Panic => "panic".to_string(),
+            Op::PanicStatic => "panic-static".to_string(),
         })
         .collect::<Vec<_>>()
         .join("; ")
@@ -148,7 +151,7 @@ fn gen_ops(budget: &mut usize, depth: usize) -> Vec<Op> {
         match k {
             0 => out.push(Op::Enable),
             1 => {
-                out.push(Op::Panic);
+                out.push(if chance(1, 4, "prog.static_payload") { Op::PanicStatic } else { Op::Panic });
                 break; // anything after a panic in the same block is dead code
             }
             2 => out.push(Op::Disable),
@@ -299,9 +302,19 @@ fn exec_ops(ops: &[Op], m: &mut TaskModel) {
                 }
                 check_level(m, "after-catch");
             }
-            Op::Panic => {
+            Op::Panic | Op::PanicStatic => {
                 m.counter += 1;
-                let msg = format!("p{}-{}-{}", m.run, m.task, m.counter);
+                let is_static = matches!(op, Op::PanicStatic);
+                // static payloads cannot carry the run number: unique per (task, counter) within the run is enough,
+                // because the sentinel log and the model are per run
+                const STATIC_MSGS: [[&str; 4]; 3] = [
+                    ["ps-t0-a", "ps-t0-b", "ps-t0-c", "ps-t0-d"],
+                    ["ps-t1-a", "ps-t1-b", "ps-t1-c", "ps-t1-d"],
+                    ["ps-t2-a", "ps-t2-b", "ps-t2-c", "ps-t2-d"],
+                ];
+                let static_msg: &'static str = STATIC_MSGS[m.task % 3][(m.counter as usize - 1) % 4];
+                let msg = if is_static && m.counter <= 4 { static_msg.to_string() } else { format!("p{}-{}-{}", m.run, m.task, m.counter) };
+                let is_static = is_static && m.counter <= 4;
                 let dc = depth_catching(m);
                 let hs = hook_state();
                 let frame = m.frames.iter().rposition(|c| *c);
@@ -331,7 +344,11 @@ fn exec_ops(ops: &[Op], m: &mut TaskModel) {
                 }
                 let task = m.task;
                 g(|s| s.expect.push((task, msg.clone(), expect)));
-                crate::tr!("t{}: panic {msg:?} (catching frames={dc}, hook={hs:?}, sentinel expectation={expect:?})", m.task);
+                crate::tr!("t{}: panic {msg:?}{} (catching frames={dc}, hook={hs:?}, sentinel expectation={expect:?})", m.task, if is_static { " [&'static str payload]" } else { "" });
+                if is_static {
+                    kernel::count("c19.static_payload");
+                    std::panic::panic_any(static_msg);
+                }
                 panic!("{}", msg);
             }
         }
